@@ -195,7 +195,11 @@ impl Runner {
             }
             Some(sb.build())
         } else { None };
-        let chain = if w[7] != "none" {
+        let single_to_default = w[7] != "none" && !w[7].contains(',') && w[7].ends_with(">0");
+        let chain = if single_to_default {
+            // a single entry that reverts to the default key: the documented shortcut `AnimationChain::reset_after`
+            Some(AnimationChain::<Key>::reset_after(key_of(w[7].split_once('>').unwrap().0.parse().unwrap())))
+        } else if w[7] != "none" {
             let mut cb = AnimationChainBuilder::<Key>::new();
             for pair in w[7].split(',') {
                 let (x, y) = pair.split_once('>').unwrap();
@@ -305,6 +309,23 @@ impl Runner {
                 let mut c = sim.app.world.get::<P>(target.unwrap()).unwrap().clone();
                 if let Some(t) = t { t.update(&mut c, 1.0e9); }
                 format!("{} {}", b(c.a), b(c.b))
+            }
+            "setcomp" => {
+                // something other than the animator writes the target component
+                let sim = self.sim.as_mut().unwrap();
+                if let Some(mut c) = sim.app.world.get_mut::<P>(target.unwrap()) { c.a = fb(w[1]); c.b = fb(w[2]); }
+                self.observe(vec![])
+            }
+            "reinsel" => {
+                // a new AnimationSelector inserted over the existing one (`entity.insert(selector)` replaces the component)
+                let mut sb = AnimationSelectorBuilder::<Key, P>::new().initial_key(key_of(w[2].parse().unwrap()));
+                for (i, tok) in w[1].split(',').enumerate() {
+                    if let Some(t) = self.clone_p(tok) { sb = sb.add(key_of(i), t); }
+                }
+                let sim = self.sim.as_mut().unwrap();
+                let had = sim.ents.iter().any(|e| e.entity == target.unwrap() && e.has_sel);
+                if had { sim.app.world.entity_mut(target.unwrap()).insert(sb.build()); }
+                self.observe(vec![])
             }
             "tpause" => {
                 // the App's clock: a paused `Time` reports zero-length frames (`Time::delta()`), whatever the wall clock does
@@ -488,6 +509,16 @@ fn generate(seed: u64, n: usize, out: &mut dyn Write) {
                     2 => writeln!(out, "breset @{}", e).unwrap(),
                     _ => writeln!(out, "settl {} @{}", 1 + r.below(4), e).unwrap(),
                 }
+            }
+            if r.chance(1, 25) {
+                // a foreign write to the target, often followed by a zero-length frame
+                writeln!(out, "setcomp {} {}", b((r.below(41) as f32 - 20.0) * 0.5), b((r.below(41) as f32 - 20.0) * 0.5)).unwrap();
+                if r.chance(1, 2) { writeln!(out, "frame 0").unwrap(); if !with_sel && cur_slot != "-" { writeln!(out, "evalat {} {}", cur_slot, gpos).unwrap(); } }
+            }
+            if with_sel && r.chance(1, 30) {
+                let sel2 = (0..4).map(|i| if r.chance(3, 4) { (i + 1).to_string() } else { "-".into() }).collect::<Vec<_>>().join(",");
+                last_key = r.below(4);
+                writeln!(out, "reinsel {} {}", sel2, last_key).unwrap();
             }
             match r.below(20) {
                 0 if with_sel => { last_key = r.below(4); writeln!(out, "setkey {}", last_key).unwrap() }
